@@ -19,8 +19,8 @@ from concurrent.futures import ThreadPoolExecutor
 import vlib
 from vlib import Check, ToolError, log, run_bin, scratch, seed, tlc
 
-SERVER_TARGET = os.path.join(vlib.HARNESS, "target-repo")
-SERVER_BIN = os.path.join(SERVER_TARGET, "debug", "kyrodb_server")
+import srvlib
+SERVER_BIN = srvlib.SERVER_BIN              # private copy of the server binary built from /repo's working tree
 BINDABLE = ("127.0.0.1", "0.0.0.0")        # hosts the server binary can bind literally in the sandbox
 SHARDS = 8
 CLAUSES = ["fsync_disabled", "snapshots_disabled", "recovery_not_strict", "cache_not_learned", "pilot_no_auth",
@@ -36,25 +36,7 @@ def consts_for(tier):
 # the real server binary (built from /repo's working tree into a target dir under /verif)
 # ------------------------------------------------------------------------------------------
 def build_server():
-    if os.environ.get("VERIF_NO_BUILD") == "1" and os.path.exists(SERVER_BIN):
-        return
-    t0 = time.time()
-    os.makedirs(SERVER_TARGET, exist_ok=True)
-    env = dict(os.environ)
-    env["CARGO_NET_OFFLINE"] = "true"
-    cmd = ["cargo", "build", "--offline", "--locked", "--quiet", "-p", "kyrodb-engine", "--bin", "kyrodb_server",
-           "--target-dir", SERVER_TARGET]
-    with open(os.path.join(SERVER_TARGET, ".verif.lock"), "w") as lk:
-        fcntl.flock(lk, fcntl.LOCK_EX)
-        try:
-            p = subprocess.run(cmd, cwd=vlib.REPO, env=env, stdout=subprocess.PIPE, stderr=subprocess.STDOUT,
-                               text=True, timeout=2400)
-        except subprocess.TimeoutExpired:
-            raise ToolError("kyrodb_server build timed out")
-    if p.returncode != 0 or not os.path.exists(SERVER_BIN):
-        log(p.stdout[-6000:])
-        raise ToolError("kyrodb_server build failed")
-    log("[build server] %.1fs" % (time.time() - t0))
+    srvlib.build_server()
 
 
 def build_all():
